@@ -64,6 +64,7 @@ type realLeg struct {
 
 var realLegs = map[string]realLeg{
 	"C19": {"TestVerifC19Kernel", "NOT simulated: seeded address / environment-fault histories (stale socket, regular file, directory, missing parent, foreign listener) on the real kernel for filesystem, abstract and tcp endpoints; Bind / DoListen / Listen / Shutdown / NewConnection+GetInfo with the same string, in a private temporary directory; paths with '@' inside and '..' across directories and a symbolic link; a successor service binding the address while the first serving call winds down; Bind under an ended context", 4000},
+	"C15": {"TestVerifC15Kernel", "NOT simulated: serving with an idle timeout (20-120 ms) on the real listener types (filesystem unix, abstract unix, tcp; Listen and Bind+DoListen): an unvisited service stops by itself with the timeout error (late after 5 s, never after 20 s), so does a service whose last connection has just ended, and a service does not stop while a connection that was opened before the first expiry, and served, is still open (an ordering fact)", 240},
 	"C17": {"TestVerifC17Transports", "NOT simulated: seeded cancellation histories (cancel / deadline / far deadline cancelled early; before the call, while blocked with nothing in flight, with a late reply, during a blocked 24 MiB write, serving context) over the four real transports (filesystem unix socket, abstract unix socket, tcp, bridge subprocess = this test binary re-executed through sh -c by varlink.NewBridge): latency and error of the cancelled operation (700 ms bound, peer silent for 1500 ms), re-use of the connection with a live context, leftover goroutines", 320},
 	"C03": {"TestVerifC03Transports", "NOT simulated: seeded call / reply / more-sequence round trips over the four real transports (filesystem unix socket, abstract unix socket, tcp, bridge subprocess = this test binary re-executed through sh -c by varlink.NewBridge), parameters compared as JSON with number lexemes; connections dialled under a context that ends right after the connect; a oneway call with up to 4 MiB of parameters followed by Close at once (the handler must still read it)", 600},
 }
